@@ -243,6 +243,12 @@ func runPath(w *World, s *Solver, cfg *RunConfig, fn *ssa.Function, prefix []Dec
 	}
 	if m.res.Status == "done" && m.res.Sample == nil && len(m.nondets) > 0 && cfg.SamplePaths > 0 {
 		m.res.Sample = m.sampleValues()
+		if m.res.Sample != nil && m.crashed {
+			// a crashed path can only be re-run natively from its file-system
+			// snapshot (counterexample replay does that); it is not used for the
+			// native validation of sample paths
+			m.res.Sample["__crashed_path"] = "1"
+		}
 	}
 	m.res.Trace = m.trace
 	m.res.Instrs = m.instrs
